@@ -103,6 +103,12 @@ type JobObs struct {
 	Tasks     []TaskObs `json:"tasks"`
 	// JSON view (seconds resolution) consistency with IterateJobs
 	JSONAgree bool `json:"jsonAgree"`
+	// age at this snapshot (ms since Created) and, on a Restart line, whether the /job/detail JSON of the
+	// new runner equals the one of the old runner
+	Age      int  `json:"age"`
+	Faithful bool `json:"faithful"`
+	Lost     bool `json:"lost"` // the job was not in the store when the runner was restarted
+	Rst      bool `json:"rst"`  // the job was unfinished when the runner was restarted (reported canceled by the new runner)
 }
 
 type RunObs struct {
@@ -116,6 +122,8 @@ type RunObs struct {
 	EnvOk       bool   `json:"envOk"`
 	ExecAtBegin bool   `json:"execAtBegin"`
 	ExecAtEnd   bool   `json:"execAtEnd"`
+	GoneAtBegin bool   `json:"goneAtBegin"`
+	GoneAtEnd   bool   `json:"goneAtEnd"`
 	Unknown     bool   `json:"unknown"`
 }
 
@@ -163,18 +171,19 @@ type StoreObs struct {
 }
 
 type LastObs struct {
-	Op   string `json:"op"`
-	P    int    `json:"p"`
-	J    int    `json:"j"`
-	T    int    `json:"t"`
-	O    string `json:"o"`
-	Res  string `json:"res"` // "ok" | "err" | "skip"
-	Err  string `json:"err"` // error class
-	New  int    `json:"new"` // index of the accepted job or 0
-	Via  string `json:"via"`
-	HTTP int    `json:"http"`
-	Bad  string `json:"bad"`
-	V    int    `json:"v"`
+	Op     string `json:"op"`
+	P      int    `json:"p"`
+	J      int    `json:"j"`
+	T      int    `json:"t"`
+	O      string `json:"o"`
+	Res    string `json:"res"` // "ok" | "err" | "skip"
+	Err    string `json:"err"` // error class
+	New    int    `json:"new"` // index of the accepted job or 0
+	Via    string `json:"via"`
+	HTTP   int    `json:"http"`
+	Bad    string `json:"bad"`
+	V      int    `json:"v"`
+	Forced bool   `json:"forced"`
 }
 
 type State struct {
@@ -194,6 +203,8 @@ type State struct {
 	Last   LastObs    `json:"last"`
 	Shut   string     `json:"shut"` // "no" | "begun" | "returned"
 	ShutAt int        `json:"shutAt"`
+	Forced bool       `json:"forced"`
+	Idle   int        `json:"idle"` // ms since the reported jobs/pipelines last changed
 }
 
 type Event struct {
@@ -238,6 +249,12 @@ type world struct {
 	curVer int
 	curBad string
 	dirty  bool // event lines were written since the last quiescent snapshot line
+	gen    int  // runner generation (incremented by restart); events of older generations are muted
+	// idle tracking
+	staleStore bool
+	jobsDigest string
+	chgAt      int
+	detail     map[uuid.UUID]string // last /job/detail JSON per job (for the faithful comparison)
 }
 
 // digest of the API-visible part of the vocabulary (to detect silent changes between lines)
@@ -340,27 +357,31 @@ func (w *world) createTaskRunner(pr **prunner.PipelineRunner) func(j *prunner.Pi
 		ji.envOk = ji.ver > 0 && j.Env["PV"] == "v"+itoa(ji.ver)
 		f := newFakeRunner(w, ji)
 		f.pr = pr
+		f.gen = w.gen
 		ji.runners = append(ji.runners, f)
 		return f
 	}
 }
 
 // executingNow reads the job through the public API at a runner observation point.
-func (w *world) executingNow(f *fakeRunner) bool {
+func (w *world) executingNow(f *fakeRunner) (bool, bool) {
 	res := false
 	if f.pr == nil || *f.pr == nil {
-		return false
+		return false, false
 	}
-	_ = (*f.pr).ReadJob(f.job.id, func(j *prunner.PipelineJob) {
+	err := (*f.pr).ReadJob(f.job.id, func(j *prunner.PipelineJob) {
 		res = j.Start != nil && !j.Completed && !j.Canceled
 	})
-	return res
+	return res, err != nil
 }
 
 func (w *world) evRunBegin(f *fakeRunner, t *task.Task) {
-	exec := w.executingNow(f)
+	exec, gone := w.executingNow(f)
 	w.mu.Lock()
 	defer w.mu.Unlock()
+	if f.gen != w.gen {
+		return
+	}
 	ji := f.job
 	ti := w.taskIdx(ji, t.Name)
 	if ti == 0 {
@@ -374,6 +395,7 @@ func (w *world) evRunBegin(f *fakeRunner, t *task.Task) {
 	r.Open = true
 	r.BegunAt = w.nowMs()
 	r.ExecAtBegin = exec
+	r.GoneAtBegin = gone
 	spec := w.sc.Versions[ji.ver-1].Tasks[ti-1]
 	if spec.Empty {
 		r.CmdOk = len(t.Commands) == 0
@@ -386,9 +408,12 @@ func (w *world) evRunBegin(f *fakeRunner, t *task.Task) {
 }
 
 func (w *world) evRunEnd(f *fakeRunner, t *task.Task, res string) {
-	exec := w.executingNow(f)
+	exec, gone := w.executingNow(f)
 	w.mu.Lock()
 	defer w.mu.Unlock()
+	if f.gen != w.gen {
+		return
+	}
 	ji := f.job
 	ti := w.taskIdx(ji, t.Name)
 	if ti == 0 {
@@ -400,12 +425,16 @@ func (w *world) evRunEnd(f *fakeRunner, t *task.Task, res string) {
 	r.Outcome = res
 	r.EndedAt = w.nowMs()
 	r.ExecAtEnd = exec
+	r.GoneAtEnd = gone
 	w.emit(Event{K: "RunEnd", J: ji.idx, T: ti, O: res})
 }
 
 func (w *world) evRunRefused(f *fakeRunner, t *task.Task) {
 	w.mu.Lock()
 	defer w.mu.Unlock()
+	if f.gen != w.gen {
+		return
+	}
 	ji := f.job
 	ti := w.taskIdx(ji, t.Name)
 	if ti > 0 {
@@ -417,6 +446,9 @@ func (w *world) evRunRefused(f *fakeRunner, t *task.Task) {
 func (w *world) evRunnerCancel(f *fakeRunner, first bool) {
 	w.mu.Lock()
 	defer w.mu.Unlock()
+	if f.gen != w.gen {
+		return
+	}
 	ji := f.job
 	s := &w.st.Stop[ji.idx-1]
 	s.N++
